@@ -238,7 +238,7 @@ def shrink_c18(scn, viol, test):
     # simplify include / exclude arguments
     for oi, op in enumerate(scn["worlds"][0]["ops"]):
         if op[0] in ("get_analyzers", "build_registry"):
-            for pos in (-2, -1):
+            for pos in ((1, 2) if op[0] == "get_analyzers" else (2, 3)):
                 if op[pos] is not None:
                     c = copy.deepcopy(scn)
                     c["worlds"][0]["ops"][oi][pos] = None
